@@ -242,6 +242,35 @@ Proof.
   unfold s'. cbn [with_hsettings hs_settings]. rewrite coerce_idem. reflexivity.
 Qed.
 
+Lemma hourly_roundtrip_fields_l : forall s d, wf_hourly s -> hourly_to_doc s = Some d -> hs_edge_coeffs s <> None ->
+  exists s', hourly_from_doc paths d = Some s' /\
+    hs_settings s' = coerce paths (hs_settings s) /\ hs_edge_coeffs s' = hs_edge_coeffs s /\
+    hs_clusters s' = hs_clusters s /\ hs_bin_edges s' = hs_bin_edges s /\
+    hs_ts_features s' = hs_ts_features s /\ hs_cat_features s' = hs_cat_features s /\
+    hs_loc s' = hs_loc s /\ hs_scale s' = hs_scale s /\ hs_y s' = hs_y s /\
+    hs_coef s' = hs_coef s /\ hs_intercept s' = hs_intercept s /\ hs_metrics s' = hs_metrics s /\
+    hs_tz s' = hs_tz s /\ hs_warnings s' = hs_warnings s /\ hs_dq s' = hs_dq s /\ hs_error s' = hs_error s /\
+    hs_version s' = hs_version s.
+Proof.
+  intros s d Hwf Hd He. unfold hourly_from_doc. rewrite (hourly_from_to_gen false s d Hwf Hd).
+  destruct (hs_edge_coeffs s) eqn:E; [|contradiction].
+  eexists. split; [reflexivity|]. unfold with_hsettings.
+  cbn [hs_settings hs_clusters hs_bin_edges hs_edge_coeffs hs_ts_features hs_cat_features hs_loc hs_scale hs_y hs_coef
+       hs_intercept hs_metrics hs_warnings hs_dq hs_error hs_tz hs_version].
+  rewrite E. repeat split.
+Qed.
+
+Lemma hourly_edge_keys_restored_l : forall s d n, wf_hourly s -> hourly_to_doc s = Some d -> hs_edge_coeffs s <> None ->
+  exists s', hourly_from_doc paths d = Some s' /\
+    match hs_edge_coeffs s', hs_edge_coeffs s with
+    | Some l', Some l => edge_lookup n l' = edge_lookup n l
+    | _, _ => False
+    end.
+Proof.
+  intros s d n Hwf Hd He. destruct (hourly_roundtrip_fields_l s d Hwf Hd He) as (s' & Hs & _ & Hedge & _).
+  exists s'. split; [exact Hs|]. rewrite Hedge. destruct (hs_edge_coeffs s); [reflexivity | contradiction].
+Qed.
+
 End RoundTrip.
 
 (* ---------------------------------------------------------------- prediction as a function of its inputs *)
